@@ -155,6 +155,14 @@ func stopScenario(c int, post bool) *explore.Scenario {
 			}
 			<-st
 			stopped = true
+			// Stopped() is closed: the handler has ended for the router too, so the name is free again at once (the
+			// restart flow: Stop, wait for Stopped, add a handler under the same name, RunHandlers)
+			defer func() {
+				if r := recover(); r != nil {
+					vs.Fail("stopped-usable", "Stopped() of handler a is closed, but adding a handler named a again panicked: %v", r)
+				}
+			}()
+			e.addHandler("a", 1)
 		}()
 		runDone := false
 		e.run(context.Background(), &runDone)
@@ -174,6 +182,18 @@ func stopScenario(c int, post bool) *explore.Scenario {
 		}
 		if e.pubs["b"].CloseCalls != 0 {
 			vs.Fail("stop-only-that-handler", "stopping handler a closed handler b's publisher")
+		}
+		if err := e.r.RunHandlers(context.Background()); err != nil {
+			vs.Fail("runhandlers-error", "%v", err)
+		}
+		<-e.hs["a"].Started()
+		e.subs["a"].Open()
+		vs.Quiesce()
+		if e.handle["a"] != 1 {
+			vs.Fail("started-once", "handler a, added again after it had stopped, handled %d of 1 messages", e.handle["a"])
+		}
+		if e.subs["a"].SubscribeCalls != 1 {
+			vs.Fail("started-once", "handler a, added again after it had stopped, subscribed %d times", e.subs["a"].SubscribeCalls)
 		}
 		vs.Note("ok")
 	}}
